@@ -13,9 +13,9 @@ use std::collections::BTreeMap;
 pub const SPEC: PropSpec = PropSpec {
     id: "C20",
     level: "exploration",
-    rule: "Cases = (value of one of 8 struct shapes with list fields (one with three lists whose middle items contain a child of the item's own name): two lists; three lists; lists + scalar + optional field; list items that are structs containing a child named like an outer list; list items that are structs with two lists of their own; a $value enum list next to a named list; nested struct with its own lists, order-preserving interleaving of the child elements of its contiguous serialization, event buffer limit). Exhaustive: for generated values with at most 3+3+2 list items ALL order-preserving interleavings (multinomial, sampled down to 600 when more than 2000) x every limit 1..=total child events+2 and no limit; random interleavings for sizes up to 10+10+10; two-level random interleavings (the children of nested struct items are interleaved as well). Oracle: without a limit the result must be Ok(original value) (string and reader entry points); with a limit L the result must be Ok(original value) or Err(TooManyEvents); if B > L the result must not be Ok, where B = number of deserializer events (Start, End, Text; an empty element counts 2) of the siblings that do not belong to the first list met in document order and stand behind that list's first item; success at L implies success at every L' > L. Non-trivial = the interleaving is not the contiguous one (B > 0).",
+    rule: "Cases = (value of one of 9 struct shapes with list fields (one with three lists whose middle items contain a child of the item's own name; one whose container also has text content, which is one more sibling of one event): two lists; three lists; lists + scalar + optional field; list items that are structs containing a child named like an outer list; list items that are structs with two lists of their own; a $value enum list next to a named list; nested struct with its own lists, order-preserving interleaving of the child elements of its contiguous serialization, event buffer limit). Exhaustive: for generated values with at most 3+3+2 list items ALL order-preserving interleavings (multinomial, sampled down to 600 when more than 2000) x every limit 1..=total child events+2 and no limit; random interleavings for sizes up to 10+10+10; two-level random interleavings (the children of nested struct items are interleaved as well). Oracle: without a limit the result must be Ok(original value) (string and reader entry points); with a limit L the result must be Ok(original value) or Err(TooManyEvents); if B > L the result must not be Ok, where B = number of deserializer events (Start, End, Text; an empty element counts 2) of the siblings that do not belong to the first list met in document order and stand behind that list's first item; success at L implies success at every L' > L. Non-trivial = the interleaving is not the contiguous one (B > 0).",
     assumptions: &["B is a lower bound of what has to be buffered (documentation of the overlapped-lists feature: all events up to the end of the container are inspected); list items that are structs with own lists may need more, which the monitor does not demand", "the serializer output never contains comments/CDATA, so one text token is one deserializer event"],
-    required: &["interleavings", "shapes_seen_all8", "outcome.ok", "outcome.too_many_events", "monotonicity_pairs", "tight.zero_slack", "max.B", "reader_entry", "two_level_values"],
+    required: &["interleavings", "shapes_seen_all9", "outcome.ok", "outcome.too_many_events", "monotonicity_pairs", "tight.zero_slack", "max.B", "reader_entry", "two_level_values"],
     run,
     replay,
     thorough_layers: &[],
@@ -25,7 +25,7 @@ pub const SPEC: PropSpec = PropSpec {
 
 fn post(c: &mut BTreeMap<String, u64>) {
     let n = c.iter().filter(|(k, v)| k.starts_with("shape.") && **v > 0).count() as u64;
-    c.insert("shapes_seen_all8".into(), (n >= 8) as u64);
+    c.insert("shapes_seen_all9".into(), (n >= 8) as u64);
 }
 
 #[derive(Default)]
@@ -113,7 +113,10 @@ pub fn split_children(xml: &str, list_groups: &dyn Fn(&str) -> (usize, bool)) ->
                 }
             }
             Obs::Ev(Kind::Text, raw, _) => {
-                if depth > 0 && !raw.iter().all(|b| is_ws(*b)) {
+                if depth == 0 && !raw.iter().all(|b| is_ws(*b)) {
+                    // text content of the container itself: one more sibling, one event
+                    children.push((Child { bytes: xml[t.before as usize..t.after as usize].to_string(), group: 11, events: 1 }, false));
+                } else if depth > 0 && !raw.iter().all(|b| is_ws(*b)) {
                     cur_events += 1;
                 } else if depth > 0 && !raw.is_empty() {
                     // whitespace-only text inside a leaf element is a text event unless it is trimmed away:
